@@ -1,4 +1,6 @@
 import BarterModel.Model.SysHandle
+import BarterModel.Lemmas.Audit
+import BarterModel.Props.C10
 /-! Helper lemmas for the sub-check C20S (`Props/C20S.lean`): feed algebra, the four runners, the
 invariant of the scheduler-driven system. -/
 namespace BarterModel.SysHandle
@@ -820,5 +822,1002 @@ theorem held_enabled (E : Engine σ μ α κ ρ) (X : Exchange χ ρ α) (b : Sy
       split
       · exact h
       · intro hc; simp at hc
+
+theorem syncRun_requests (E : Engine σ μ α κ ρ) (e : Eng σ) (feed : List (Ev μ α κ)) :
+    (syncRun E e feed).requests = requestsOf E e (consumed E e feed) := by
+  induction feed generalizing e with
+  | nil => rfl
+  | cons ev rest ih =>
+    simp only [syncRun, consumed]
+    split
+    · simp [requestsOf]
+    · simp only [requestsOf]; rw [ih]
+
+theorem syncRun_shutdownAudit (E : Engine σ μ α κ ρ) (e : Eng σ) (feed : List (Ev μ α κ)) :
+    (syncRun E e feed).shutdownAudit = (syncRunWithAudit E e feed).shutdownAudit := by
+  rw [syncRunWithAudit_eq_syncRun]
+
+/-- The output of any of the four runners on a feed whose first terminal tick is that of `last`. -/
+theorem runner_output_of_halted (E : Engine σ μ α κ ρ) (m : EngineFeedMode) (a : AuditMode) (e : Eng σ)
+    (pre : List (Ev μ α κ)) (last : Ev μ α κ) (rest : List (Ev μ α κ))
+    (hn : ∀ t ∈ ticksOf E e pre, t.terminal = false)
+    (ht : (processWithAudit E (engAfter E e pre) last).2.1.terminal = true) :
+    let o := runner E m a e ((pre ++ [last]) ++ rest)
+    o.engine = engAfter E e (pre ++ [last]) ∧
+    o.shutdownAudit = (processWithAudit E (engAfter E e pre) last).2.1 ∧
+    o.sent = (if a = .enabled then ticksOf E e (pre ++ [last]) else []) ∧
+    o.rest = rest ∧ o.requests = requestsOf E e (pre ++ [last]) := by
+  intro o
+  have hfeed : (pre ++ [last]) ++ rest = pre ++ last :: rest := by simp
+  have hc := consumed_of_halted E e pre last rest hn ht
+  rw [← hfeed] at hc
+  have hrest := syncRun_rest E e ((pre ++ [last]) ++ rest)
+  rw [hc.1] at hrest
+  have hrest' : (syncRun E e ((pre ++ [last]) ++ rest)).rest = rest := List.append_cancel_left hrest
+  have heng := syncRun_engine E e ((pre ++ [last]) ++ rest)
+  rw [hc.1, hc.2] at heng
+  have hsent := syncRunWithAudit_sent E e ((pre ++ [last]) ++ rest)
+  rw [hc.1, hc.2] at hsent
+  have hlast := syncRunWithAudit_last E e ((pre ++ [last]) ++ rest)
+  have hsa : (syncRunWithAudit E e ((pre ++ [last]) ++ rest)).shutdownAudit =
+      (processWithAudit E (engAfter E e pre) last).2.1 := by
+    rw [hsent] at hlast
+    simp only [Bool.false_eq_true, ↓reduceIte, List.append_nil, ticksOf_append] at hlast
+    simpa using hlast.symm
+  have hreq := syncRun_requests E e ((pre ++ [last]) ++ rest)
+  rw [hc.1] at hreq
+  have ho : o = if a = .enabled then syncRunWithAudit E e ((pre ++ [last]) ++ rest)
+      else syncRun E e ((pre ++ [last]) ++ rest) := runner_eq E m a e _
+  by_cases ha : a = .enabled
+  · simp only [ha, ↓reduceIte] at ho ⊢
+    rw [ho, syncRunWithAudit_eq_syncRun]
+    refine ⟨by simpa using heng, ?_, by simpa using hsent, hrest', hreq⟩
+    rw [← hsa, syncRun_shutdownAudit]
+  · simp only [ha, ↓reduceIte] at ho ⊢
+    rw [ho]
+    refine ⟨by simpa using heng, ?_, syncRun_sent E e _, hrest', hreq⟩
+    rw [syncRun_shutdownAudit, hsa]
+
+/-! ### the concrete engine: trading state and `on_trading_disabled` count along a history -/
+
+section Concrete
+open BarterModel.Engine BarterModel.Orders
+
+/-- the parts of the engine model that only trading-state updates touch -/
+def Frame (e e' : Engine.Eng) : Prop :=
+  e'.enabled = e.enabled ∧ e'.disabledCalls = e.disabledCalls ∧ e'.links = e.links
+
+theorem Frame.refl (e : Engine.Eng) : Frame e e := ⟨rfl, rfl, rfl⟩
+theorem Frame.trans {a b c : Engine.Eng} (h1 : Frame a b) (h2 : Frame b c) : Frame a c :=
+  ⟨h2.1.trans h1.1, h2.2.1.trans h1.2.1, h2.2.2.trans h1.2.2⟩
+
+theorem frame_recordOpens (e : Engine.Eng) (rs : List OpenReq) : Frame e (recordOpens e rs) := by
+  induction rs generalizing e with
+  | nil => exact Frame.refl e
+  | cons r rs ih =>
+    simp only [recordOpens, List.foldl_cons]
+    exact Frame.trans ⟨rfl, rfl, rfl⟩ (ih (recordOpen e r))
+
+theorem frame_recordCancels (e : Engine.Eng) (rs : List CancelReq) : Frame e (recordCancels e rs) := by
+  induction rs generalizing e with
+  | nil => exact Frame.refl e
+  | cons r rs ih =>
+    simp only [recordCancels, List.foldl_cons]
+    exact Frame.trans ⟨rfl, rfl, rfl⟩ (ih (recordCancel e r))
+
+theorem frame_sendRequests {β : Type} (e : Engine.Eng) (toReq : β → Req) (rs : List β) :
+    Frame e (sendRequests e toReq rs).1 := ⟨rfl, rfl, rfl⟩
+
+theorem frame_generateAlgoOrders (e : Engine.Eng) (cs : List CancelReq) (os : List OpenReq)
+    (rf : Key → Bool) : Frame e (generateAlgoOrders e cs os rf).1 := by
+  simp only [generateAlgoOrders]
+  exact Frame.trans (Frame.trans (Frame.trans (frame_sendRequests e _ _) (frame_sendRequests _ _ _))
+    (frame_recordCancels _ _)) (frame_recordOpens _ _)
+
+theorem frame_generateStage (e : Engine.Eng) (cmd : Option ActionOut) (cs : List CancelReq)
+    (os : List OpenReq) (rf : Key → Bool) : Frame e (generateStage e cmd cs os rf).1 := by
+  unfold generateStage
+  split
+  · exact frame_generateAlgoOrders e cs os rf
+  · exact Frame.refl e
+
+theorem frame_action (e : Engine.Eng) (c : Command) : Frame e (action e c).1 := by
+  cases c with
+  | sendCancelRequests rs =>
+    simp only [action]; exact Frame.trans (frame_sendRequests e _ _) (frame_recordCancels _ _)
+  | sendOpenRequests rs =>
+    simp only [action]; exact Frame.trans (frame_sendRequests e _ _) (frame_recordOpens _ _)
+  | closePositions f =>
+    simp only [action]
+    exact Frame.trans (Frame.trans (Frame.trans (frame_sendRequests e _ _) (frame_sendRequests _ _ _))
+      (frame_recordCancels _ _)) (frame_recordOpens _ _)
+  | cancelOrders f =>
+    simp only [action]; exact Frame.trans (frame_sendRequests e _ _) (frame_recordCancels _ _)
+
+theorem frame_applyUpdate (e : Engine.Eng) (u : Update) : Frame e (applyUpdate e u) := by
+  cases u <;> exact ⟨rfl, rfl, rfl⟩
+
+/-- `Engine::process`: only a trading-state update changes the trading state, and
+`on_trading_disabled` is invoked exactly on an `Enabled → Disabled` transition. -/
+theorem process_trading (e : Engine.Eng) (ev : Engine.Event) (cs : List CancelReq) (os : List OpenReq)
+    (rf : Key → Bool) :
+    (BarterModel.Engine.process e ev cs os rf).1.enabled =
+      (match ev with | .tradingState on => on | _ => e.enabled) ∧
+    (BarterModel.Engine.process e ev cs os rf).1.disabledCalls =
+      e.disabledCalls + (match ev with | .tradingState on => if e.enabled && !on then 1 else 0 | _ => 0) := by
+  cases ev with
+  | shutdown => exact ⟨rfl, rfl⟩
+  | command c =>
+    simp only [BarterModel.Engine.process]
+    have ha := frame_action e c
+    split
+    · exact ⟨ha.1, by simpa using ha.2.1⟩
+    · have hg := Frame.trans ha (frame_generateStage (action e c).1 (some (action e c).2) cs os rf)
+      exact ⟨hg.1, by simpa using hg.2.1⟩
+  | tradingState on =>
+    simp only [BarterModel.Engine.process]
+    have hg := frame_generateStage (updateTradingState e on) none cs os rf
+    refine ⟨?_, ?_⟩
+    · rw [hg.1]; unfold updateTradingState; split
+      · rename_i hc; simp at hc; simp [hc.2]
+      · rfl
+    · rw [hg.2.1]; unfold updateTradingState; split
+      · rename_i hc; simp
+      · rename_i hc; simp
+  | update u =>
+    simp only [BarterModel.Engine.process]
+    have hg := Frame.trans (frame_applyUpdate e u) (frame_generateStage (applyUpdate e u) none cs os rf)
+    exact ⟨hg.1, by simpa using hg.2.1⟩
+
+def engTrading? : Engine.Event → Option Bool
+  | .tradingState on => some on
+  | _ => none
+
+def evTrading? : Ev μ α κ → Option Bool
+  | .trading on => some on
+  | _ => none
+
+theorem toEngineEvent_trading (e : Engine.Eng) (ev : CEv) :
+    engTrading? (toEngineEvent e ev) = evTrading? ev := by
+  cases ev with
+  | shutdown => rfl
+  | command c => rfl
+  | trading on => rfl
+  | market m => simp only [toEngineEvent]; split <;> rfl
+  | account a =>
+    cases a with
+    | snapshot q bs => rfl
+    | balance x t => rfl
+    | order i cid q p f x => rfl
+    | cancelErr i cid => rfl
+    | trade i sd q p => simp only [toEngineEvent]; split <;> rfl
+
+theorem process_trading' (e : Engine.Eng) (ev : Engine.Event) (cs : List CancelReq) (os : List OpenReq)
+    (rf : Key → Bool) :
+    (BarterModel.Engine.process e ev cs os rf).1.enabled = (engTrading? ev).getD e.enabled ∧
+    (BarterModel.Engine.process e ev cs os rf).1.disabledCalls =
+      e.disabledCalls + (match engTrading? ev with | some on => if e.enabled && !on then 1 else 0 | none => 0) := by
+  have h := process_trading e ev cs os rf
+  cases ev <;> exact h
+
+theorem cStep_trading (s : CEng) (ev : CEv) :
+    (cStep s ev).1.eng.enabled = (evTrading? ev).getD s.eng.enabled ∧
+    (cStep s ev).1.eng.disabledCalls =
+      s.eng.disabledCalls + (match evTrading? ev with | some on => if s.eng.enabled && !on then 1 else 0 | none => 0) := by
+  have h := process_trading' s.eng (toEngineEvent s.eng ev) (cAsk s ev).algoC (cAsk s ev).algoO (cAsk s ev).refuse
+  rw [toEngineEvent_trading] at h
+  exact h
+
+/-- The trading state of the engine after ANY history is the last trading-state update in it (the
+initial state if there is none), and the number of `on_trading_disabled` invocations is the number
+of `Enabled → Disabled` transitions. -/
+theorem engFold_trading (s : CEng) (h : List CEv) :
+    (engFold cEngine s h).eng.enabled = specTrading s.eng.enabled h ∧
+    (engFold cEngine s h).eng.disabledCalls = s.eng.disabledCalls + specDisabledCalls s.eng.enabled h := by
+  induction h generalizing s with
+  | nil => exact ⟨rfl, rfl⟩
+  | cons ev h ih =>
+    have hstep := cStep_trading s ev
+    have := ih (cStep s ev).1
+    have e1 : engFold cEngine s (ev :: h) = engFold cEngine (cStep s ev).1 h := rfl
+    rw [e1, this.1, this.2, hstep.1, hstep.2]
+    cases ev <;> simp only [specTrading, specDisabledCalls, evTrading?, Option.getD] <;>
+      refine ⟨trivial, ?_⟩ <;> omega
+
+/-- the trading state only depends on the handle events of a history -/
+theorem specTrading_handleOf (init : Bool) (h : List (Ev μ α κ)) :
+    specTrading init (handleOf h) = specTrading init h ∧
+    specDisabledCalls init (handleOf h) = specDisabledCalls init h := by
+  induction h generalizing init with
+  | nil => exact ⟨rfl, rfl⟩
+  | cons ev h ih =>
+    cases ev with
+    | trading on =>
+      simp only [handleOf_cons_trading, specTrading, specDisabledCalls]
+      exact ⟨(ih on).1, by rw [(ih on).2]⟩
+    | shutdown => simp only [handleOf_cons_shutdown, specTrading, specDisabledCalls]; exact ih init
+    | command c => simp only [handleOf_cons_command, specTrading, specDisabledCalls]; exact ih init
+    | market m => simp only [handleOf_cons_market, specTrading, specDisabledCalls]; exact ih init
+    | account a => simp only [handleOf_cons_account, specTrading, specDisabledCalls]; exact ih init
+
+/-! ### link to the audit / replica model of C10 (`Model/Audit.lean`, `Props/C10.lean`, read-only) -/
+
+open BarterModel.Audit BarterModel.Props.C10
+
+/-- no order is confirmed open by the exchange (only in-flight request markers, if anything) -/
+def NoConfirmed (e : Engine.Eng) : Prop := ∀ i c, strip (orderState e i c) = none
+
+/-- the engine events the mock exchange of this model can cause: order reports are final states
+(fully filled / open failed) or cancel responses -/
+def MockEvent : Engine.Event → Prop
+  | .update (.order _ (.snapshot sn)) => ∃ k, sn.state = .inactive k
+  | .update (.order _ (.cancelResp _ _)) => True
+  | .update (.order _ _) => False
+  | _ => True
+
+theorem mockEvent_toEngineEvent (e : Engine.Eng) (ev : CEv) : MockEvent (toEngineEvent e ev) := by
+  cases ev with
+  | shutdown => trivial
+  | command c => trivial
+  | trading on => trivial
+  | market m => simp only [toEngineEvent]; split <;> trivial
+  | account a =>
+    cases a with
+    | snapshot q bs => trivial
+    | balance x t => trivial
+    | order i cid q p f x => exact ⟨_, rfl⟩
+    | cancelErr i cid => trivial
+    | trade i sd q p => simp only [toEngineEvent]; split <;> trivial
+
+theorem mockEvent_eventOk (ev : Engine.Event) (h : MockEvent ev) : EventOk ev := by
+  cases ev with
+  | update u =>
+    cases u with
+    | order i op =>
+      cases op with
+      | snapshot sn =>
+        obtain ⟨k, hk⟩ := h
+        simp [EventOk, Op.exchangeReport, hk]
+      | cancelResp c ok => rfl
+      | recOpen c q p x => exact absurd h id
+      | recCancel c => exact absurd h id
+    | _ => trivial
+  | _ => trivial
+
+theorem noConfirmed_applyUpdate (e : Engine.Eng) (u : Update) (hn : NoConfirmed e)
+    (hm : MockEvent (.update u)) : NoConfirmed (applyUpdate e u) := by
+  intro j c
+  cases u with
+  | order i op =>
+    rw [orderState_applyUpdate_order]
+    by_cases hj : j = i
+    · subst hj
+      simp only [↓reduceIte]
+      cases hx : e.instruments[j]? with
+      | none => rfl
+      | some st =>
+        simp only
+        have hbase : stateOf ([] : Orders) c = strip (stateOf st.orders c) := by
+          have := hn j c
+          simp only [orderState, hx] at this
+          rw [this]; rfl
+        have hrep : Op.exchangeReport op = true := mockEvent_eventOk _ hm
+        have := strip_step_tables st.orders [] op c hrep hbase
+        rw [← this]
+        cases op with
+        | snapshot sn =>
+          obtain ⟨k, hk⟩ := hm
+          simp [Orders.step, updateFromSnapshot, lookup, hk, stateOf]
+        | cancelResp c' ok => simp [Orders.step, updateFromCancelResponse, lookup, stateOf]
+        | recOpen c' q p x => exact absurd hm id
+        | recCancel c' => exact absurd hm id
+    · simp only [hj, ↓reduceIte]; exact hn j c
+  | position i sd q => rw [orderState_applyUpdate_other _ _ _ _ (by intro i op; simp)]; exact hn j c
+  | flat i => rw [orderState_applyUpdate_other _ _ _ _ (by intro i op; simp)]; exact hn j c
+  | price i p => rw [orderState_applyUpdate_other _ _ _ _ (by intro i op; simp)]; exact hn j c
+  | other => exact hn j c
+
+theorem noConfirmed_generateStage (e : Engine.Eng) (cmd : Option ActionOut) (cs : List CancelReq)
+    (os : List OpenReq) (rf : Key → Bool) (hn : NoConfirmed e) :
+    NoConfirmed (generateStage e cmd cs os rf).1 := by
+  intro i c
+  unfold generateStage
+  split
+  · simp only [generateAlgoOrders]
+    apply strip_recordOpens_none
+    rw [strip_recordCancels_eq]
+    simpa [orderState, sendRequests] using hn i c
+  · exact hn i c
+
+theorem noConfirmed_process (e : Engine.Eng) (ev : Engine.Event) (cs : List CancelReq)
+    (os : List OpenReq) (rf : Key → Bool) (hn : NoConfirmed e) (hm : MockEvent ev) :
+    NoConfirmed (BarterModel.Engine.process e ev cs os rf).1 := by
+  cases ev with
+  | shutdown => exact hn
+  | command c =>
+    simp only [BarterModel.Engine.process]
+    have ha : NoConfirmed (action e c).1 := fun i cid => strip_action_none e c i cid (hn i cid)
+    split
+    · exact ha
+    · exact noConfirmed_generateStage _ _ _ _ _ ha
+  | tradingState on =>
+    simp only [BarterModel.Engine.process]
+    apply noConfirmed_generateStage
+    intro i c
+    have := (updateTradingState_fields e on).1
+    simpa [orderState, this] using hn i c
+  | update u =>
+    simp only [BarterModel.Engine.process]
+    exact noConfirmed_generateStage _ _ _ _ _ (noConfirmed_applyUpdate e u hn hm)
+
+theorem noConfirmed_preState (e : Engine.Eng) (ev : Engine.Event) (hn : NoConfirmed e)
+    (hm : MockEvent ev) : NoConfirmed (preState e ev) := by
+  cases ev with
+  | update u => exact noConfirmed_applyUpdate e u hn hm
+  | _ => exact hn
+
+/-- Every feed history of the concrete system satisfies the hypotheses of the C10 replication
+theorem, provided no order was confirmed open at the start. -/
+theorem historyOk_cHist (s : CEng) (h : List CEv) (hn : NoConfirmed s.eng) :
+    HistoryOk s.eng (cHist s h) := by
+  induction h generalizing s with
+  | nil => trivial
+  | cons ev h ih =>
+    have hm := mockEvent_toEngineEvent s.eng ev
+    refine ⟨mockEvent_eventOk _ hm, ?_, ?_⟩
+    · intro o _
+      exact noConfirmed_preState s.eng _ hn hm _ _
+    · exact ih (cStep s ev).1 (noConfirmed_process s.eng _ _ _ _ hn hm)
+
+theorem engFold_eq_engineRun (s : CEng) (h : List CEv) :
+    (engFold cEngine s h).eng = engineRun s.eng (cHist s h) := by
+  induction h generalizing s with
+  | nil => rfl
+  | cons ev h ih =>
+    have e1 : engFold cEngine s (ev :: h) = engFold cEngine (cStep s ev).1 h := rfl
+    rw [e1, ih]; rfl
+
+def engIsShutdown : Engine.Event → Bool
+  | .shutdown => true
+  | _ => false
+
+theorem auditTick_terminal (q : Nat) (ev : Engine.Event) (a : Engine.Audit) :
+    (Audit.Tick.process q ev a).terminal = (engIsShutdown ev || a.fatal) := by
+  cases ev <;> rfl
+
+theorem toEngineEvent_isShutdown (e : Engine.Eng) (ev : CEv) :
+    engIsShutdown (toEngineEvent e ev) = ev.isShutdown := by
+  cases ev with
+  | shutdown => rfl
+  | command c => rfl
+  | trading on => rfl
+  | market m => simp only [toEngineEvent]; split <;> rfl
+  | account a =>
+    cases a with
+    | trade i sd q p => simp only [toEngineEvent]; split <;> rfl
+    | _ => rfl
+
+/-- the audit stream of `Model/Audit.lean` agrees tick by tick with the runner's ticks -/
+theorem cAuditTicks_agree (s : CEng) (q : Nat) (h : List CEv) :
+    (cAuditTicks s q h).map Audit.Tick.seq = (ticksOf cEngine ⟨s, q⟩ h).map Tick.seq ∧
+    (cAuditTicks s q h).map Audit.Tick.terminal = (ticksOf cEngine ⟨s, q⟩ h).map Tick.terminal := by
+  induction h generalizing s q with
+  | nil => exact ⟨rfl, rfl⟩
+  | cons ev h ih =>
+    have := ih (cStep s ev).1 (q + 1)
+    simp only [cAuditTicks, ticksOf, List.map_cons]
+    refine ⟨?_, ?_⟩
+    · rw [this.1]; rfl
+    · rw [this.2, auditTick_terminal, toEngineEvent_isShutdown]; rfl
+
+theorem consumed_of_running (E : Engine σ μ α κ ρ) (e : Eng σ) (h : List (Ev μ α κ))
+    (hn : ∀ t ∈ ticksOf E e h, t.terminal = false) : consumed E e h = h := by
+  induction h generalizing e with
+  | nil => rfl
+  | cons x h ih =>
+    simp only [ticksOf, List.mem_cons, forall_eq_or_imp] at hn
+    simp only [consumed, hn.1]
+    rw [ih _ hn.2]; simp
+
+/-- `StateReplicaManager::run` over the ticks of a history: it applies the ticks of the consumed
+prefix (it stops itself on a terminal tick), never skips, never rejects. -/
+theorem replica_run_ticks (s : CEng) (r : Engine.Eng) (n : Nat) (h : List CEv) :
+    Replica.run ⟨r, n⟩ (cAuditTicks s (n + 1) h) =
+      .ok ⟨replicaRun r (cHist s (consumed cEngine ⟨s, n + 1⟩ h)),
+           n + (consumed cEngine ⟨s, n + 1⟩ h).length⟩ := by
+  induction h generalizing s r n with
+  | nil => rfl
+  | cons ev h ih =>
+    have hterm := (cAuditTicks_agree s (n + 1) [ev]).2
+    simp only [cAuditTicks, ticksOf, List.map_cons, List.map_nil, List.cons.injEq, and_true] at hterm
+    simp only [cAuditTicks, Replica.run, Replica.step]
+    have h1 : ¬ n ≥ n + 1 := by omega
+    simp only [h1, ↓reduceIte, ne_eq, not_true_eq_false]
+    simp only [consumed]
+    have hpw : (processWithAudit cEngine ⟨s, n + 1⟩ ev).1 = ⟨(cStep s ev).1, n + 1 + 1⟩ := rfl
+    rw [hpw]
+    by_cases ht : (processWithAudit cEngine ⟨s, n + 1⟩ ev).2.1.terminal = true
+    · rw [hterm, ht]
+      simp [cHist, replicaRun]
+    · have ht' : (processWithAudit cEngine ⟨s, n + 1⟩ ev).2.1.terminal = false := by simpa using ht
+      rw [hterm, ht']
+      simp only [Bool.false_eq_true, ↓reduceIte]
+      have := ih (cStep s ev).1 (replicaApply r (toEngineEvent s.eng ev)) (n + 1)
+      rw [this]
+      simp only [cHist, replicaRun, List.length_cons]
+      congr 2
+      omega
+
+/-! ### account events of one block commute (what the correspondence's canonicalisation relies on) -/
+
+def sgn : Option (Side × Rat) → Rat
+  | none => 0
+  | some (.buy, q) => q
+  | some (.sell, q) => -q
+
+def Canon (p : Option (Side × Rat)) : Prop := ∀ sd q, p = some (sd, q) → 0 < q
+
+theorem netPosition_sgn (cur : Option (Side × Rat)) (side : Side) (q : Rat) (hq : 0 < q)
+    (hc : Canon cur) :
+    sgn (netPosition cur side q) = sgn cur + sgn (some (side, q)) ∧ Canon (netPosition cur side q) := by
+  cases cur with
+  | none =>
+    refine ⟨by cases side <;> simp [netPosition, sgn] <;> grind, ?_⟩
+    intro sd q' h; simp [netPosition] at h; rw [← h.2]; exact hq
+  | some p =>
+    obtain ⟨s0, q0⟩ := p
+    have h0 : 0 < q0 := hc _ _ rfl
+    by_cases hs : s0 = side
+    · subst hs
+      refine ⟨by cases s0 <;> simp [netPosition, sgn] <;> grind, ?_⟩
+      intro sd q' h; simp [netPosition] at h; rw [← h.2]; grind
+    · by_cases h1 : q < q0
+      · refine ⟨by cases s0 <;> cases side <;> simp_all [netPosition, sgn] <;> grind, ?_⟩
+        intro sd q' h; simp [netPosition, hs, h1] at h; rw [← h.2]; grind
+      · by_cases h2 : q = q0
+        · subst h2
+          refine ⟨by cases s0 <;> cases side <;> simp_all [netPosition, sgn] <;> grind, ?_⟩
+          intro sd q' h; simp [netPosition, hs] at h
+        · refine ⟨by cases s0 <;> cases side <;> simp_all [netPosition, sgn] <;> grind, ?_⟩
+          intro sd q' h; simp [netPosition, hs, h1, h2] at h; rw [← h.2]; grind
+
+theorem sgn_inj (p p' : Option (Side × Rat)) (h : Canon p) (h' : Canon p') (he : sgn p = sgn p') :
+    p = p' := by
+  cases p with
+  | none =>
+    cases p' with
+    | none => rfl
+    | some x =>
+      obtain ⟨s, q⟩ := x
+      have := h' _ _ rfl
+      cases s <;> simp [sgn] at he <;> grind
+  | some x =>
+    obtain ⟨s, q⟩ := x
+    have hq := h _ _ rfl
+    cases p' with
+    | none => cases s <;> simp [sgn] at he <;> grind
+    | some y =>
+      obtain ⟨s', q'⟩ := y
+      have hq' := h' _ _ rfl
+      cases s <;> cases s' <;> simp [sgn] at he <;> first | (subst he; rfl) | grind
+
+theorem netPosition_comm (cur : Option (Side × Rat)) (s1 s2 : Side) (q1 q2 : Rat)
+    (h1 : 0 < q1) (h2 : 0 < q2) (hc : Canon cur) :
+    netPosition (netPosition cur s1 q1) s2 q2 = netPosition (netPosition cur s2 q2) s1 q1 := by
+  have a1 := netPosition_sgn cur s1 q1 h1 hc
+  have a2 := netPosition_sgn cur s2 q2 h2 hc
+  have b1 := netPosition_sgn _ s2 q2 h2 a1.2
+  have b2 := netPosition_sgn _ s1 q1 h1 a2.2
+  apply sgn_inj _ _ b1.2 b2.2
+  rw [b1.1, b2.1, a1.1, a2.1]
+  grind
+
+theorem erase_of_lookup_none (m : Orders) (c : Nat) (h : lookup m c = none) : erase m c = m := by
+  induction m with
+  | nil => rfl
+  | cons x m ih =>
+    obtain ⟨k, v⟩ := x
+    simp only [lookup] at h
+    split at h
+    · cases h
+    · rename_i hk; simp only [erase, hk, ↓reduceIte]; rw [ih h]
+
+theorem erase_comm (m : Orders) (c1 c2 : Nat) : erase (erase m c1) c2 = erase (erase m c2) c1 := by
+  induction m with
+  | nil => rfl
+  | cons x m ih =>
+    obtain ⟨k, v⟩ := x
+    by_cases h1 : k = c1
+    · by_cases h2 : k = c2
+      · subst h1; subst h2; simp only [erase, ↓reduceIte]
+      · subst h1; simp only [erase, ↓reduceIte, h2]; exact ih
+    · by_cases h2 : k = c2
+      · subst h2; simp only [erase, ↓reduceIte, h1]; exact ih
+      · simp only [erase, h1, h2, ↓reduceIte]; rw [ih]
+
+theorem erase_idem (m : Orders) (c : Nat) : erase (erase m c) c = erase m c :=
+  erase_of_lookup_none _ _ (lookup_erase_self m c)
+
+theorem updateFromSnapshot_inactive (m : Orders) (cid : Nat) (q p : Rat) (k : Inactive) (ex : Nat) :
+    updateFromSnapshot m ⟨cid, q, p, .inactive k, ex⟩ = erase m cid := by
+  unfold updateFromSnapshot
+  cases h : lookup m cid with
+  | none => simp only; exact (erase_of_lookup_none m cid h).symm
+  | some cur => rfl
+
+def TblOk (m : Orders) : Prop :=
+  ∀ c cur, lookup m c = some cur → cur.state = .inFlight ∨ cur.state = .cancelInFlight none
+
+def cancelF (m : Orders) (c : Nat) : Orders :=
+  if stateOf m c = some (.cancelInFlight none) then erase m c else m
+
+theorem cancelResp_false_eq (m : Orders) (c : Nat) (h : TblOk m) :
+    updateFromCancelResponse m c false = cancelF m c := by
+  unfold updateFromCancelResponse cancelF stateOf
+  cases hl : lookup m c with
+  | none => simp
+  | some cur =>
+    rcases h c cur hl with hs | hs <;> simp [hs]
+
+theorem stateOf_erase (m : Orders) (c c' : Nat) :
+    stateOf (erase m c) c' = if c' = c then none else stateOf m c' := by
+  unfold stateOf
+  by_cases h : c' = c
+  · subst h; simp [lookup_erase_self]
+  · simp [h, lookup_erase_ne m c c' h]
+
+theorem tblOk_erase (m : Orders) (c : Nat) (h : TblOk m) : TblOk (erase m c) := by
+  intro c' cur hl
+  by_cases hc : c' = c
+  · subst hc; rw [lookup_erase_self] at hl; cases hl
+  · rw [lookup_erase_ne m c c' hc] at hl; exact h c' cur hl
+
+theorem tblOk_cancelF (m : Orders) (c : Nat) (h : TblOk m) : TblOk (cancelF m c) := by
+  unfold cancelF; split
+  · exact tblOk_erase m c h
+  · exact h
+
+theorem cancelF_erase_comm (m : Orders) (c1 c2 : Nat) :
+    cancelF (erase m c1) c2 = erase (cancelF m c2) c1 := by
+  unfold cancelF
+  rw [stateOf_erase]
+  by_cases h : c2 = c1
+  · subst h
+    simp only [↓reduceIte]
+    have hn : ¬ (none : Option Active) = some (Active.cancelInFlight none) := by simp
+    simp only [hn, ↓reduceIte]
+    split
+    · exact (erase_idem m c2).symm
+    · rfl
+  · simp only [h, ↓reduceIte]
+    split
+    · exact erase_comm m c1 c2
+    · rfl
+
+theorem cancelF_comm (m : Orders) (c1 c2 : Nat) :
+    cancelF (cancelF m c1) c2 = cancelF (cancelF m c2) c1 := by
+  by_cases h : c1 = c2
+  · subst h; rfl
+  · have hne : c2 ≠ c1 := fun e => h e.symm
+    unfold cancelF
+    by_cases a1 : stateOf m c1 = some (.cancelInFlight none) <;>
+      by_cases a2 : stateOf m c2 = some (.cancelInFlight none) <;>
+      simp [a1, a2, stateOf_erase, h, hne, erase_comm m c1 c2]
+
+theorem modifyInstr_congr (l : List Instr) (i : Nat) (f g : Instr → Instr)
+    (h : ∀ st, l[i]? = some st → f st = g st) : modifyInstr l i f = modifyInstr l i g := by
+  unfold modifyInstr
+  cases hl : l[i]? with
+  | none => rfl
+  | some st => simp only; rw [h st hl]
+
+theorem modifyInstr_twice (l : List Instr) (i : Nat) (f g : Instr → Instr) :
+    modifyInstr (modifyInstr l i f) i g = modifyInstr l i (fun st => g (f st)) := by
+  unfold modifyInstr
+  cases hl : l[i]? with
+  | none => simp [hl]
+  | some st =>
+    have hi : i < l.length := (List.getElem?_eq_some_iff.mp hl).1
+    simp [hi]
+
+theorem modifyInstr_comm_ne (l : List Instr) (i j : Nat) (f g : Instr → Instr) (h : i ≠ j) :
+    modifyInstr (modifyInstr l i f) j g = modifyInstr (modifyInstr l j g) i f := by
+  apply List.ext_getElem?
+  intro k
+  simp only [modifyInstr_getElem?]
+  by_cases hki : k = i <;> by_cases hkj : k = j
+  · subst hki; exact absurd hkj h
+  · subst hki; simp [h, hkj]
+  · subst hkj; simp [hki, Ne.symm h]
+  · simp [hki, hkj]
+
+/-- what an account event of the mock exchange does to the instrument it names -/
+inductive IOp where
+  | erase (c : Nat)
+  | cancel (c : Nat)
+  | trade (side : Side) (q : Rat)
+
+def IOp.fn : IOp → Instr → Instr
+  | .erase c, st => { st with orders := Orders.erase st.orders c }
+  | .cancel c, st => { st with orders := cancelF st.orders c }
+  | .trade side q, st => { st with position := netPosition st.position side q }
+
+def IOp.ok : IOp → Prop
+  | .trade _ q => 0 < q
+  | _ => True
+
+def accOp : AccEv → Option (Nat × IOp)
+  | .snapshot _ _ => none
+  | .balance _ _ => none
+  | .order i cid _ _ _ _ => some (i, .erase cid)
+  | .cancelErr i cid => some (i, .cancel cid)
+  | .trade i side q _ => some (i, .trade side q)
+
+def accApply (e : Engine.Eng) (a : AccEv) : Engine.Eng :=
+  match accOp a with
+  | none => e
+  | some (i, o) => { e with instruments := modifyInstr e.instruments i o.fn }
+
+theorem IOp.comm (o1 o2 : IOp) (st : Instr) (hc : Canon st.position) (h1 : o1.ok) (h2 : o2.ok) :
+    o2.fn (o1.fn st) = o1.fn (o2.fn st) := by
+  cases o1 with
+  | erase c1 =>
+    cases o2 with
+    | erase c2 => simp only [IOp.fn, erase_comm]
+    | cancel c2 => simp only [IOp.fn, cancelF_erase_comm]
+    | trade s2 q2 => rfl
+  | cancel c1 =>
+    cases o2 with
+    | erase c2 => simp only [IOp.fn, cancelF_erase_comm]
+    | cancel c2 => simp only [IOp.fn, cancelF_comm st.orders c1 c2]
+    | trade s2 q2 => rfl
+  | trade s1 q1 =>
+    cases o2 with
+    | erase c2 => rfl
+    | cancel c2 => rfl
+    | trade s2 q2 => simp only [IOp.fn, netPosition_comm st.position s1 s2 q1 q2 h1 h2 hc]
+
+def Settled (s : CEng) : Prop := s.eng.enabled = true → s.answered = s.trades.length
+def PosOk (e : Engine.Eng) : Prop := ∀ st ∈ e.instruments, Canon st.position
+def AccOk (a : AccEv) : Prop := ∀ i o, accOp a = some (i, o) → o.ok
+
+theorem tblOk_of_noConfirmed (e : Engine.Eng) (hn : NoConfirmed e) (i : Nat) (st : Instr)
+    (hi : e.instruments[i]? = some st) : TblOk st.orders := by
+  intro c cur hl
+  have := hn i c
+  simp only [orderState, hi, stateOf, hl, Option.map_some] at this
+  cases hs : cur.state with
+  | inFlight => exact Or.inl rfl
+  | opn o => simp [hs, strip] at this
+  | cancelInFlight x =>
+    cases x with
+    | none => exact Or.inr rfl
+    | some o => simp [hs, strip] at this
+
+/-- the engine-model update of an account event is `accApply` -/
+theorem applyUpdate_account (e : Engine.Eng) (a : AccEv) (hn : NoConfirmed e) :
+    ∃ u, toEngineEvent e (.account a) = .update u ∧ applyUpdate e u = accApply e a := by
+  cases a with
+  | snapshot q bs => exact ⟨.other, rfl, rfl⟩
+  | balance x t => exact ⟨.other, rfl, rfl⟩
+  | order i cid q p f x =>
+    refine ⟨_, rfl, ?_⟩
+    simp only [applyUpdate, accApply, accOp, Orders.step, updateFromSnapshot_inactive]
+    congr 1
+  | cancelErr i cid =>
+    refine ⟨_, rfl, ?_⟩
+    simp only [applyUpdate, accApply, accOp, Orders.step]
+    congr 1
+    apply modifyInstr_congr
+    intro st hst
+    simp only [IOp.fn]
+    rw [cancelResp_false_eq _ _ (tblOk_of_noConfirmed e hn i st hst)]
+  | trade i sd q p =>
+    simp only [toEngineEvent]
+    cases hi : e.instruments[i]? with
+    | none =>
+      have h1 : ∀ f : Instr → Instr, modifyInstr e.instruments i f = e.instruments := by
+        intro f; simp [modifyInstr, hi]
+      split
+      · exact ⟨_, rfl, by simp [applyUpdate, accApply, accOp, h1]⟩
+      · exact ⟨_, rfl, by simp [applyUpdate, accApply, accOp, h1]⟩
+    | some st =>
+      simp only [Option.bind_some]
+      split
+      · rename_i sd' q' hnp
+        refine ⟨_, rfl, ?_⟩
+        simp only [applyUpdate, accApply, accOp]
+        congr 1
+        apply modifyInstr_congr
+        intro st' hst'
+        rw [hi] at hst'; injection hst' with hst'; subst hst'
+        simp only [IOp.fn]
+        rw [hnp]
+      · rename_i hnp
+        refine ⟨_, rfl, ?_⟩
+        simp only [applyUpdate, accApply, accOp]
+        congr 1
+        apply modifyInstr_congr
+        intro st' hst'
+        rw [hi] at hst'; injection hst' with hst'; subst hst'
+        simp only [IOp.fn]
+        rw [hnp]
+
+theorem generateStage_nothing (e : Engine.Eng) (rf : Key → Bool) :
+    (generateStage e none [] [] rf).1 = e := by
+  unfold generateStage
+  split
+  · simp [generateAlgoOrders, sendRequests, recordCancels, recordOpens]
+  · rfl
+
+/-- processing an account event, in a state where the strategy has nothing to say, is `accApply` -/
+theorem cStep_account (s : CEng) (a : AccEv) (hs : Settled s) (hn : NoConfirmed s.eng) :
+    (cStep s (.account a)).1 = { s with eng := accApply s.eng a } := by
+  obtain ⟨u, hu, happ⟩ := applyUpdate_account s.eng a hn
+  have hfr := frame_applyUpdate s.eng u
+  simp only [cStep, cAsk, tradesAfter, hu, BarterModel.Engine.process]
+  by_cases hen : s.eng.enabled = true
+  · have ha := hs hen
+    have hopens : stratOpens s.eng s.trades s.answered = [] := by
+      simp [stratOpens, ha]
+    rw [hopens, generateStage_nothing, happ]
+    have hgen : (generateStage (applyUpdate s.eng u) none [] [] (fun _ => false)).2.generated.isSome = true := by
+      unfold generateStage; simp [hfr.1, hen]
+    simp [hgen, ha]
+  · have hen' : s.eng.enabled = false := by simpa using hen
+    have hgs : ∀ os, generateStage (applyUpdate s.eng u) none [] os (fun _ => false) =
+        (applyUpdate s.eng u, ⟨none, none, none, false⟩) := by
+      intro os; unfold generateStage; simp [hfr.1, hen']
+    rw [hgs, happ]
+    simp
+
+theorem accApply_comm (e : Engine.Eng) (a1 a2 : AccEv) (hp : PosOk e) (h1 : AccOk a1) (h2 : AccOk a2) :
+    accApply (accApply e a1) a2 = accApply (accApply e a2) a1 := by
+  unfold accApply
+  cases hf1 : accOp a1 with
+  | none => cases hf2 : accOp a2 <;> simp
+  | some p1 =>
+    cases hf2 : accOp a2 with
+    | none => simp
+    | some p2 =>
+      obtain ⟨i, o1⟩ := p1
+      obtain ⟨j, o2⟩ := p2
+      simp only
+      congr 1
+      by_cases hij : i = j
+      · subst hij
+        rw [modifyInstr_twice, modifyInstr_twice]
+        apply modifyInstr_congr
+        intro st hst
+        exact IOp.comm o1 o2 st (hp st (List.mem_of_getElem? hst)) (h1 _ _ hf1) (h2 _ _ hf2)
+      · exact modifyInstr_comm_ne _ i j o1.fn o2.fn hij
+
+theorem posOk_accApply (e : Engine.Eng) (a : AccEv) (hp : PosOk e) (ha : AccOk a) : PosOk (accApply e a) := by
+  unfold accApply
+  cases hf : accOp a with
+  | none => exact hp
+  | some p =>
+    obtain ⟨i, o⟩ := p
+    intro st hst
+    simp only at hst
+    obtain ⟨k, hk, rfl⟩ := List.mem_iff_getElem.mp hst
+    have hk' : (modifyInstr e.instruments i o.fn)[k]? = some ((modifyInstr e.instruments i o.fn)[k]) :=
+      List.getElem?_eq_getElem hk
+    rw [modifyInstr_getElem?] at hk'
+    by_cases hki : k = i
+    · subst hki
+      simp only [↓reduceIte] at hk'
+      cases hx : e.instruments[k]? with
+      | none => simp [hx] at hk'
+      | some st0 =>
+        simp only [hx, Option.map_some, Option.some.injEq] at hk'
+        rw [← hk']
+        have hc0 := hp st0 (List.mem_of_getElem? hx)
+        cases o with
+        | erase c => exact hc0
+        | cancel c => exact hc0
+        | trade sd q => exact (netPosition_sgn st0.position sd q (ha _ _ hf) hc0).2
+    · simp only [hki, ↓reduceIte] at hk'
+      exact hp _ (List.mem_of_getElem? hk')
+
+/-- folding a list of account events: any permutation gives the same engine -/
+theorem foldl_accApply_perm (l1 l2 : List AccEv) (hperm : l1.Perm l2) (e : Engine.Eng)
+    (hp : PosOk e) (hok : ∀ a ∈ l1, AccOk a) :
+    l1.foldl accApply e = l2.foldl accApply e := by
+  induction hperm generalizing e with
+  | nil => rfl
+  | cons x _ ih =>
+    simp only [List.foldl_cons]
+    exact ih _ (posOk_accApply e x hp (hok x (by simp))) (fun a ha => hok a (by simp [ha]))
+  | swap x y l =>
+    simp only [List.foldl_cons]
+    rw [accApply_comm e y x hp (hok y (by simp)) (hok x (by simp))]
+  | trans h1 _ ih1 ih2 =>
+    rw [ih1 e hp hok]
+    exact ih2 e hp (fun a ha => hok a ((h1.mem_iff).mpr ha))
+
+/-! the three hypotheses hold in every state the concrete system can reach -/
+
+theorem forall_mem_modifyInstr (P : Instr → Prop) (l : List Instr) (i : Nat) (f : Instr → Instr)
+    (hl : ∀ st ∈ l, P st) (hf : ∀ st, P st → P (f st)) : ∀ st ∈ modifyInstr l i f, P st := by
+  intro st hst
+  obtain ⟨k, hk, rfl⟩ := List.mem_iff_getElem.mp hst
+  have hk' : (modifyInstr l i f)[k]? = some ((modifyInstr l i f)[k]) := List.getElem?_eq_getElem hk
+  rw [modifyInstr_getElem?] at hk'
+  by_cases hki : k = i
+  · subst hki
+    simp only [↓reduceIte] at hk'
+    cases hx : l[k]? with
+    | none => simp [hx] at hk'
+    | some st0 =>
+      simp only [hx, Option.map_some, Option.some.injEq] at hk'
+      rw [← hk']; exact hf _ (hl _ (List.mem_of_getElem? hx))
+  · simp only [hki, ↓reduceIte] at hk'
+    exact hl _ (List.mem_of_getElem? hk')
+
+theorem posOk_recordOpens (e : Engine.Eng) (rs : List OpenReq) (h : PosOk e) : PosOk (recordOpens e rs) := by
+  induction rs generalizing e with
+  | nil => exact h
+  | cons r rs ih =>
+    simp only [recordOpens, List.foldl_cons]
+    apply ih
+    exact forall_mem_modifyInstr _ _ _ _ h (fun st hst => hst)
+
+theorem posOk_recordCancels (e : Engine.Eng) (rs : List CancelReq) (h : PosOk e) : PosOk (recordCancels e rs) := by
+  induction rs generalizing e with
+  | nil => exact h
+  | cons r rs ih =>
+    simp only [recordCancels, List.foldl_cons]
+    apply ih
+    exact forall_mem_modifyInstr _ _ _ _ h (fun st hst => hst)
+
+theorem posOk_generateStage (e : Engine.Eng) (cmd : Option ActionOut) (cs : List CancelReq)
+    (os : List OpenReq) (rf : Key → Bool) (h : PosOk e) : PosOk (generateStage e cmd cs os rf).1 := by
+  unfold generateStage
+  split
+  · simp only [generateAlgoOrders]
+    exact posOk_recordOpens _ _ (posOk_recordCancels _ _ h)
+  · exact h
+
+theorem posOk_action (e : Engine.Eng) (c : Command) (h : PosOk e) : PosOk (action e c).1 := by
+  cases c with
+  | sendCancelRequests rs => simp only [action]; exact posOk_recordCancels _ _ h
+  | sendOpenRequests rs => simp only [action]; exact posOk_recordOpens _ _ h
+  | closePositions f => simp only [action]; exact posOk_recordOpens _ _ (posOk_recordCancels _ _ h)
+  | cancelOrders f => simp only [action]; exact posOk_recordCancels _ _ h
+
+/-- the events of a history that carry a fill have a positive quantity -/
+def EvOk : CEv → Prop
+  | .account a => AccOk a
+  | _ => True
+
+theorem posOk_cStep (s : CEng) (ev : CEv) (h : PosOk s.eng) (hn : NoConfirmed s.eng) (hev : EvOk ev) :
+    PosOk (cStep s ev).1.eng := by
+  cases ev with
+  | shutdown => exact h
+  | command c =>
+    simp only [cStep, toEngineEvent, BarterModel.Engine.process]
+    split
+    · exact posOk_action _ _ h
+    · exact posOk_generateStage _ _ _ _ _ (posOk_action _ _ h)
+  | trading on =>
+    simp only [cStep, toEngineEvent, BarterModel.Engine.process]
+    apply posOk_generateStage
+    have := (Props.C10.updateTradingState_fields s.eng on).1
+    intro st hst; rw [this] at hst; exact h st hst
+  | market m =>
+    simp only [cStep, toEngineEvent]
+    split
+    · simp only [BarterModel.Engine.process]
+      exact posOk_generateStage _ _ _ _ _ h
+    · simp only [BarterModel.Engine.process]
+      apply posOk_generateStage
+      exact forall_mem_modifyInstr _ _ _ _ h (fun st hst => hst)
+  | account a =>
+    obtain ⟨u, hu, happ⟩ := applyUpdate_account s.eng a hn
+    simp only [cStep, hu, BarterModel.Engine.process]
+    apply posOk_generateStage
+    rw [happ]
+    exact posOk_accApply s.eng a h hev
+
+theorem generateStage_generated (e : Engine.Eng) (cmd : Option ActionOut) (cs : List CancelReq)
+    (os : List OpenReq) (rf : Key → Bool) :
+    (generateStage e cmd cs os rf).2.generated.isSome = e.enabled := by
+  unfold generateStage
+  split
+  · rename_i h; simp [h]
+  · rename_i h; simp at h; simp [h]
+
+/-- an event other than `Shutdown` / a command always reaches the generation stage: the strategy is
+consulted iff trading is enabled after the event's own update -/
+theorem cStep_consulted (s : CEng) (ev : CEv) (hne : ∀ c, ev ≠ .command c) (hns : ev ≠ .shutdown) :
+    (cStep s ev).2.generated.isSome = (cStep s ev).1.eng.enabled := by
+  have key : ∀ (e' : Engine.Eng) (cs : List CancelReq) (os : List OpenReq) (rf : Key → Bool),
+      (generateStage e' none cs os rf).2.generated.isSome = (generateStage e' none cs os rf).1.enabled := by
+    intro e' cs os rf
+    rw [generateStage_generated, (frame_generateStage e' none cs os rf).1]
+  cases ev with
+  | shutdown => exact absurd rfl hns
+  | command c => exact absurd rfl (hne c)
+  | trading on => simp only [cStep, toEngineEvent, BarterModel.Engine.process]; exact key _ _ _ _
+  | market m =>
+    simp only [cStep, toEngineEvent]
+    split <;> (simp only [BarterModel.Engine.process]; exact key _ _ _ _)
+  | account a =>
+    cases a with
+    | trade i sd q p =>
+      simp only [cStep, toEngineEvent]
+      split <;> (simp only [BarterModel.Engine.process]; exact key _ _ _ _)
+    | snapshot q bs => simp only [cStep, toEngineEvent, BarterModel.Engine.process]; exact key _ _ _ _
+    | balance x t => simp only [cStep, toEngineEvent, BarterModel.Engine.process]; exact key _ _ _ _
+    | order i cid q p f x => simp only [cStep, toEngineEvent, BarterModel.Engine.process]; exact key _ _ _ _
+    | cancelErr i cid => simp only [cStep, toEngineEvent, BarterModel.Engine.process]; exact key _ _ _ _
+
+theorem settled_cStep (s : CEng) (ev : CEv) (h : Settled s) : Settled (cStep s ev).1 := by
+  intro hen
+  have htr := (cStep_trading s ev).1
+  by_cases hg : (cStep s ev).2.generated.isSome = true
+  · have : (cStep s ev).1.answered = (cStep s ev).1.trades.length := by
+      simp only [cStep] at hg ⊢; simp [hg]
+    exact this
+  · have hg' : (cStep s ev).2.generated.isSome = false := by simpa using hg
+    have hans : (cStep s ev).1.answered = s.answered := by
+      simp only [cStep] at hg' ⊢; simp [hg']
+    cases ev with
+    | shutdown =>
+      rw [hans]
+      have : s.eng.enabled = true := by rw [htr] at hen; simpa [evTrading?] using hen
+      exact h this
+    | command c =>
+      rw [hans]
+      have : s.eng.enabled = true := by rw [htr] at hen; simpa [evTrading?] using hen
+      exact h this
+    | trading on =>
+      have := cStep_consulted s (.trading on) (by intro c; simp) (by simp)
+      rw [hen] at this; rw [this] at hg'; cases hg'
+    | market m =>
+      have := cStep_consulted s (.market m) (by intro c; simp) (by simp)
+      rw [hen] at this; rw [this] at hg'; cases hg'
+    | account a =>
+      have := cStep_consulted s (.account a) (by intro c; simp) (by simp)
+      rw [hen] at this; rw [this] at hg'; cases hg'
+
+
+/-! the fold over a block of account events -/
+
+theorem engFold_accounts (s : CEng) (l : List AccEv) (hs : Settled s) (hn : NoConfirmed s.eng) :
+    engFold cEngine s (l.map Ev.account) = { s with eng := l.foldl accApply s.eng } := by
+  induction l generalizing s with
+  | nil => rfl
+  | cons a l ih =>
+    have e1 : engFold cEngine s ((a :: l).map Ev.account) =
+        engFold cEngine (cStep s (.account a)).1 (l.map Ev.account) := rfl
+    have hs' := settled_cStep s (.account a) hs
+    have hn' : NoConfirmed (cStep s (.account a)).1.eng :=
+      noConfirmed_process s.eng _ _ _ _ hn (mockEvent_toEngineEvent s.eng (.account a))
+    rw [e1, ih _ hs' hn', cStep_account s a hs hn]
+    rfl
+
+/-- The three facts about an engine state that make account events commute. -/
+structure StateOk (s : CEng) : Prop where
+  settled : Settled s
+  noConfirmed : NoConfirmed s.eng
+  posOk : PosOk s.eng
+
+theorem stateOk_cStep (s : CEng) (ev : CEv) (h : StateOk s) (hev : EvOk ev) : StateOk (cStep s ev).1 :=
+  ⟨settled_cStep s ev h.settled,
+   noConfirmed_process s.eng _ _ _ _ h.noConfirmed (mockEvent_toEngineEvent s.eng ev),
+   posOk_cStep s ev h.posOk h.noConfirmed hev⟩
+
+theorem stateOk_engFold (s : CEng) (h : List CEv) (ok : StateOk s) (hev : ∀ ev ∈ h, EvOk ev) :
+    StateOk (engFold cEngine s h) := by
+  induction h generalizing s with
+  | nil => exact ok
+  | cons ev h ih =>
+    have e1 : engFold cEngine s (ev :: h) = engFold cEngine (cStep s ev).1 h := rfl
+    rw [e1]
+    exact ih _ (stateOk_cStep s ev ok (hev ev (by simp))) (fun x hx => hev x (by simp [hx]))
+
+end Concrete
 
 end BarterModel.SysHandle
